@@ -7,10 +7,19 @@
 //! * branching assignments on the (i,i+1)-orbits that break the symmetries of the D-set;
 //! * k-sheeted covers (k = 2, 3) from sheet permutations on the edges, kept when the result
 //!   is a connected D-symbol (orbit lengths divide the base degrees, far operations commute).
+//!
+//! Every function of the property is generic over the `DSet` / `DSym` traits.  The ops
+//! `minimg ismin auts morph fold cover` hold the tables as `PartialDSym` / `PartialDSet`; the ops
+//! with suffix `_s` ask the same questions of the SAME tables held as `SimpleDSym` / `SimpleDSet`
+//! (`From<Partial…>`), and of the objects the library's own generators yield (`DSets::new`,
+//! `DSyms::new(&dset, Geometries::…)`), asked directly without a round trip.  The driver runs the
+//! same model and the same Spec on both.
 use rust_dsymbols::covers::finite_universal_cover;
 use rust_dsymbols::derived::minimal_image;
-use rust_dsymbols::dsyms::PartialDSym;
-use rust_dsymbols::dsets::DSet;
+use rust_dsymbols::dsyms::{DSym, PartialDSym, SimpleDSym};
+use rust_dsymbols::dsets::{DSet, SimpleDSet};
+use rust_dsymbols::generators::dset_generators::DSets;
+use rust_dsymbols::generators::dsym_generators::{DSyms, Geometries};
 use rust_dsymbols::util::partitions::Partition;
 use std::collections::HashSet;
 use verif_harness::dsgen::Tab;
@@ -413,6 +422,158 @@ fn symbol_cases(ctx: &mut Ctx, s: &Tab, aut: usize, rng: &mut Rng, exhaustive_pa
     fold_cases(ctx, 1, s, rng, exhaustive_pairs, &tag);
 }
 
+// ---------------------------------------------------------------------------------
+// the same questions through any implementation of the traits (ops with suffix `_s`)
+
+fn minimg_on<T: DSym>(ctx: &mut Ctx, op: &str, t: &Tab, ds: &T, tag: &str) {
+    ctx.case(op, tag, || t.enc(), || {
+        let flag = ds.is_minimal();
+        let img = minimal_image(ds);
+        format!("{} {}", if flag { 1 } else { 0 }, Tab::from_dsym(&img).enc())
+    });
+}
+
+fn ismin_on<T: DSet>(ctx: &mut Ctx, op: &str, kind: usize, t: &Tab, ds: &T, tag: &str) {
+    ctx.case(op, tag, || format!("{} {}", kind, t.enc()), || (if ds.is_minimal() { "1" } else { "0" }).to_string());
+}
+
+fn auts_on<T: DSet>(ctx: &mut Ctx, op: &str, kind: usize, t: &Tab, ds: &T, tag: &str) {
+    ctx.case(op, tag, || format!("{} {}", kind, t.enc()), || enc_maps(&ds.automorphisms()));
+}
+
+/// `a.morphism(b, e)` for every e in 0..=|b|+1; the two sides may be different representations
+fn morph_on<A: DSet, B: DSet>(ctx: &mut Ctx, op: &str, kind: usize, ta: &Tab, tb: &Tab, a: &A, b: &B, tag: &str) {
+    ctx.case(op, tag, || format!("{} {} {}", kind, ta.enc(), tb.enc()), || {
+        let res: Vec<Vec<usize>> = (0..=tb.size + 1).map(|e| a.morphism(b, e).unwrap_or(vec![])).collect();
+        enc_maps(&res)
+    });
+}
+
+fn fold_on<T: DSet>(ctx: &mut Ctx, op: &str, kind: usize, t: &Tab, ds: &T, pairs: &[(usize, usize)], tag: &str) {
+    ctx.case(
+        op,
+        tag,
+        || {
+            let flat: Vec<usize> = pairs.iter().flat_map(|&(d, e)| [d, e]).collect();
+            format!("{} {} {} {}", kind, t.enc(), pairs.len(), join(&flat))
+        },
+        || fold_with(ds, pairs),
+    );
+}
+
+/// D-set level questions (kind 0) on one D-set object
+fn dset_cases_on<T: DSet>(ctx: &mut Ctx, t: &Tab, ds: &T, rng: &mut Rng, tag: &str) {
+    let n = t.size;
+    let nt = if n >= 2 { "nt " } else { "" };
+    let tag = format!("{}{}", nt, tag);
+    ismin_on(ctx, "ismin_s", 0, t, ds, &tag);
+    auts_on(ctx, "auts_s", 0, t, ds, &tag);
+    morph_on(ctx, "morph_s", 0, t, t, ds, ds, &tag);
+    if n >= 2 {
+        let seq: Vec<(usize, usize)> = (2..=n).map(|d| (1, d)).collect();
+        fold_on(ctx, "fold_s", 0, t, ds, &seq, &tag);
+        let len = 2 + rng.below(3);
+        let hist: Vec<(usize, usize)> = (0..len).map(|_| (1 + rng.below(n), 1 + rng.below(n))).collect();
+        fold_on(ctx, "fold_s", 0, t, ds, &hist, &tag);
+    }
+}
+
+/// symbol level questions (kind 1) on one symbol object
+fn dsym_cases_on<T: DSym>(ctx: &mut Ctx, t: &Tab, ds: &T, rng: &mut Rng, tag: &str) {
+    let n = t.size;
+    let nt = if n >= 2 { "nt " } else { "" };
+    let tag = format!("{}{}", nt, tag);
+    minimg_on(ctx, "minimg_s", t, ds, &tag);
+    ismin_on(ctx, "ismin_s", 1, t, ds, &tag);
+    auts_on(ctx, "auts_s", 1, t, ds, &tag);
+    morph_on(ctx, "morph_s", 1, t, t, ds, ds, &tag);
+    if ctx.peek_mine() {
+        // onto the minimal image, which the library returns as a PartialDSym (mixed representations)
+        let img = minimal_image(ds);
+        morph_on(ctx, "morph_s", 1, t, &Tab::from_dsym(&img), ds, &img, &tag);
+    } else {
+        ctx.skip();
+    }
+    if n >= 2 {
+        let seq: Vec<(usize, usize)> = (2..=n).map(|d| (1, d)).collect();
+        fold_on(ctx, "fold_s", 1, t, ds, &seq, &tag);
+        let len = 2 + rng.below(3);
+        let hist: Vec<(usize, usize)> = (0..len).map(|_| (1 + rng.below(n), 1 + rng.below(n))).collect();
+        fold_on(ctx, "fold_s", 1, t, ds, &hist, &tag);
+    }
+}
+
+/// (3) the other implementations of the traits
+fn other_representations(ctx: &mut Ctx, th: bool) {
+    let mut rng = ctx.rng(5);
+    // (3a) the tables of (1)/(2) held as SimpleDSet / SimpleDSym: every D-set, a sample of the
+    //      branching assignments (every k-th of the exhaustive list, so symmetric and
+    //      symmetry-breaking ones are both met)
+    {
+        let t = d3_symbol();
+        let s: SimpleDSym = t.to_partial_dsym().into();
+        dsym_cases_on(ctx, &t, &s, &mut rng, "regress simple dim=2 size=8");
+    }
+    let plan: &[(usize, usize, usize)] = if th { &[(2, 7, 60), (3, 4, 12)] } else { &[(2, 6, 12), (3, 3, 6)] };
+    for &(dim, nmax, per_set) in plan {
+        for n in 1..=nmax {
+            for (t, _aut) in &dsets_up_to_iso(dim, n, true) {
+                let tag = format!("simple dim={} size={}", dim, n);
+                let sset: SimpleDSet = t.to_partial_dset().into();
+                dset_cases_on(ctx, t, &sset, &mut rng, &tag);
+                let all = assignments(t, &[1, 2, 3], 729, &mut rng);
+                let step = std::cmp::max(1, all.len() / per_set);
+                let picked: Vec<&Tab> = all.iter().step_by(step).take(per_set).collect();
+                for (k, s) in picked.iter().enumerate() {
+                    let ssym: SimpleDSym = s.to_partial_dsym().into();
+                    dsym_cases_on(ctx, s, &ssym, &mut rng, &tag);
+                    // a different symbol on the same D-set, target held as PartialDSym
+                    let other = picked[(k + 1) % picked.len()];
+                    if other != *s {
+                        morph_on(ctx, "morph_s", 1, s, other, &ssym, &other.to_partial_dsym(), &format!("nt {}", tag));
+                    }
+                }
+                // one cover of the first symbol, both held as SimpleDSym
+                if n >= 2 && n <= 4 {
+                    if let Some(s) = picked.first() {
+                        for c in covers_of(s, &[2], 40, 1, &mut rng) {
+                            let ctag = format!("nt cover simple dim={} size={} sheets=2", dim, c.size.min(18));
+                            let (bs, cs): (SimpleDSym, SimpleDSym) = (s.to_partial_dsym().into(), c.to_partial_dsym().into());
+                            ctx.case("cover_s", &ctag, || format!("{} {}", s.enc(), c.enc()), || {
+                                let x = minimal_image(&bs);
+                                let y = minimal_image(&cs);
+                                format!("{} {}", Tab::from_dsym(&x).enc(), Tab::from_dsym(&y).enc())
+                            });
+                            morph_on(ctx, "morph_s", 1, &c, s, &cs, &bs, &ctag);
+                            minimg_on(ctx, "minimg_s", &c, &cs, &ctag);
+                        }
+                    }
+                }
+            }
+        }
+    }
+    // (3b) the objects the library's generators yield, asked directly (no round trip through
+    //      tables; the tables sent to the driver are read off the object through the traits)
+    let bounds: &[(usize, usize)] = if th { &[(1, 6), (2, 7), (3, 4)] } else { &[(1, 4), (2, 5), (3, 3)] };
+    let per_geom = if th { 24 } else { 4 };
+    for &(dim, nmax) in bounds {
+        for dset in DSets::new(dim, nmax) {
+            let t = Tab::from_dset(&dset);
+            let tag = format!("generated dim={} size={}", dim, t.size);
+            dset_cases_on(ctx, &t, &dset, &mut rng, &tag);
+            if dim != 2 {
+                continue;
+            }
+            for g in [Geometries::Spherical, Geometries::Euclidean, Geometries::Hyperbolic] {
+                for ds in DSyms::new(&dset, g).take(per_geom) {
+                    let ts = Tab::from_dsym(&ds);
+                    dsym_cases_on(ctx, &ts, &ds, &mut rng, &tag);
+                }
+            }
+        }
+    }
+}
+
 fn d3_symbol() -> Tab {
     // <1.1:8:1 2 3 4 7 8,2 5 6 7 8,3 4 5 6 7 8:4 3 3,6 4 3>
     let op = vec![
@@ -594,5 +755,8 @@ fn main() {
             }
         }
     }
+    // (3) SimpleDSym / SimpleDSet and generator-native objects (after everything else, so that the
+    //     case numbers of (0)–(2) stay what they were)
+    other_representations(&mut ctx, th);
     ctx.finish();
 }
